@@ -220,7 +220,33 @@ fn scan_sanitizer(lines: &[(u64, String)]) -> Vec<(String, String, Vec<String>)>
             None
         };
         if let Some(k) = kind {
-            let block: Vec<String> = lines[i..lines.len().min(i + 60)].iter().map(|x| x.1.clone()).collect();
+            // the whole report: up to its SUMMARY line (stack traces of both accesses, allocation, threads)
+            let mut end = lines.len().min(i + 600);
+            for (j, x) in lines[i..end].iter().enumerate() {
+                if j > 0 && x.1.contains("SUMMARY:") {
+                    end = i + j + 1;
+                    break;
+                }
+            }
+            let full: Vec<String> = lines[i..end].iter().map(|x| x.1.clone()).filter(|x| x.contains("[stderr]")).collect();
+            // compact excerpt: headings, the innermost frames of every stack and every frame in the
+            // workspace's own crates
+            let block: Vec<String> = full
+                .iter()
+                .filter(|b| {
+                    !b.contains("    #")
+                        || b.contains("    #0 ")
+                        || b.contains("    #1 ")
+                        || b.contains("    #2 ")
+                        || b.contains("/repo/src")
+                        || b.contains("arc_swap")
+                        || b.contains("arc-swap")
+                        || b.contains("bb8")
+                        || b.contains("mini_moka")
+                        || b.contains("lru::")
+                })
+                .cloned()
+                .collect();
             // first frame inside the workspace (pgcat / bb8 / lru / bytes / arc-swap / mini-moka), else SUMMARY
             let frame = block
                 .iter()
@@ -228,9 +254,45 @@ fn scan_sanitizer(lines: &[(u64, String)]) -> Vec<(String, String, Vec<String>)>
                 .or_else(|| block.iter().find(|b| b.contains("SUMMARY:")))
                 .cloned()
                 .unwrap_or_default();
-            let func = frame.split(" in ").nth(1).unwrap_or(&frame).split(' ').next().unwrap_or("").to_string();
-            out.push((k.to_string(), func, block.into_iter().take(40).collect()));
-            i += 20;
+            let mut func = frame.split(" in ").nth(1).unwrap_or(&frame).split(' ').next().unwrap_or("").to_string();
+            if k == "tsan" {
+                // class of a race report: the innermost frame in pgcat's own source of each of the two
+                // access stacks; "reclaim-by-arc-swap" when the conflicting write is the release of
+                // the previous value inside ArcSwap::store/swap/rcu
+                let mut stacks: Vec<Vec<&String>> = vec![];
+                for l in &full {
+                    if l.contains(" of size ") || l.contains("Previous ") {
+                        stacks.push(vec![]);
+                    } else if l.contains("Thread T") || l.contains("Location is") || l.contains("Mutex M") {
+                        stacks.push(vec![]); // not an access stack; keeps later frames out of the first two
+                    } else if l.contains("    #") {
+                        if let Some(st) = stacks.last_mut() {
+                            st.push(l);
+                        }
+                    }
+                }
+                let site = |st: Option<&Vec<&String>>| -> String {
+                    st.and_then(|v| v.iter().find(|f| f.contains("/repo/src/")))
+                        .map(|f| {
+                            let t = f.trim_start_matches("[stderr]").trim();
+                            let name = t.split_whitespace().nth(1).unwrap_or("?");
+                            name.split("::<").next().unwrap_or(name).chars().take(60).collect::<String>()
+                        })
+                        .unwrap_or_else(|| "outside_pgcat".into())
+                };
+                let w_is_free = stacks.first().map(|v| v.iter().take(3).any(|f| f.contains(" free ") || f.contains("dealloc"))).unwrap_or(false);
+                // (ArcSwap::store/swap/rcu releasing the previous value, or the last Guard / HybridProtection being dropped)
+                let via_arc_swap = stacks.first().map(|v| v.iter().any(|f| f.contains("arc_swap::"))).unwrap_or(false);
+                let complete = full.iter().any(|l| l.contains("SUMMARY:"));
+                func = if !complete {
+                    // the instance was killed (end of its scenario) while the report was being printed
+                    "truncated:".to_string()
+                } else {
+                    format!("{}{}~{}", if w_is_free && via_arc_swap { "reclaim-by-arc-swap:" } else { "" }, site(stacks.first()), site(stacks.get(1)))
+                };
+            }
+            out.push((k.to_string(), func, block.into_iter().take(80).map(|l| l.chars().take(300).collect()).collect()));
+            i = end.max(i + 1);
         } else {
             i += 1;
         }
